@@ -119,14 +119,37 @@ fn main() {
             "--replay" => {
                 i += 1;
                 let path = args.get(i).unwrap_or_else(|| usage());
-                let text = std::fs::read_to_string(path).unwrap_or_else(|e| {
+                let text = String::from_utf8_lossy(&std::fs::read(path).unwrap_or_else(|e| {
                     println!("INCONCLUSIVE cannot read replay file {path}: {e}");
                     std::process::exit(2);
-                });
-                let v: Value = serde_json::from_str(&text).unwrap_or_else(|e| {
-                    println!("INCONCLUSIVE replay file does not parse: {e}");
-                    std::process::exit(2);
-                });
+                }))
+                .to_string();
+                let v: Value = match serde_json::from_str(&text) {
+                    Ok(v) => v,
+                    Err(e) => {
+                        // a saved fuzzer input (raw bytes) of the libFuzzer targets
+                        let r = match id.as_str() {
+                            "C19" => Some(c19::replay_artifact(std::path::Path::new(path))),
+                            "C01" => Some(c01::replay_artifact(std::path::Path::new(path))),
+                            _ => None,
+                        };
+                        match r {
+                            Some(Ok(())) => {
+                                println!("replay: property {id} held on this input");
+                                std::process::exit(0);
+                            }
+                            Some(Err(f)) => {
+                                println!("  failure kind={} : {}", f.kind, f.message);
+                                println!("VIOLATION property={id} replay={path}");
+                                std::process::exit(1);
+                            }
+                            None => {
+                                println!("INCONCLUSIVE replay file does not parse: {e}");
+                                std::process::exit(2);
+                            }
+                        }
+                    }
+                };
                 replay = Some(if v.get("case").is_some() { v["case"].clone() } else { v });
             }
             _ => usage(),
@@ -161,6 +184,7 @@ fn main() {
         "C16" => c16,
         "C17" => c17,
         "C18" => c18,
+        "C19" => c19,
     );
     driver::cleanup_scratch();
     std::process::exit(code);
